@@ -137,7 +137,8 @@ def flatten(pkg: Pkg, mod, fname, kernels_by_mod, consts=None, conds=None, depth
       elif isinstance(kexpr, ast.Attribute):
         kname = ast.unparse(kexpr)
       key = graph.resolve_kernel({"module": mod, "kernel_expr": kname, "host": fname}, kernels_by_mod, None)
-      out.append({"ev": "launch", "kernel": key or f"?{mod}.{kname}", "host": f"{mod}.{fname}", "line": c.lineno, "conds": list(conds), "inputs": ilist, "outputs": olist, "args": alist})
+      out.append({"ev": "launch", "kernel": key or f"?{mod}.{kname}", "host": f"{mod}.{fname}", "line": c.lineno, "conds": list(conds), "inputs": ilist, "outputs": olist, "args": alist,
+                  "dim": " ".join(rn(ast.unparse(kw["dim"])).split()) if "dim" in kw else (" ".join(ast.unparse(c.args[1]).split()) if len(c.args) > 1 else "")})
       return
     if isinstance(c.func, ast.Attribute) and c.func.attr in ("zero_", "fill_"):
       out.append({"ev": "hostwrite", "field": rn(ast.unparse(c.func.value)), "host": f"{mod}.{fname}", "line": c.lineno, "conds": list(conds), "how": c.func.attr})
@@ -350,6 +351,14 @@ def emit_lean(res):
       body.append("]")
     body.append(f"/-- ordered launch arguments of `{nm}` (index = position in the event list) -/")
     body.append(f"def {nm}_args : List (List Nat) := " + " ++ ".join(chunks))
+    drows = [str(nid("dim:" + e.get("dim", ""))) if e["ev"] == "launch" else "0" for e in evs]
+    dchunks = []
+    for ci in range(0, max(len(drows), 1), 300):
+      cn = f"{nm}_dims_{ci // 300}"
+      dchunks.append(cn)
+      body.append(f"def {cn} : List Nat := [" + ", ".join(drows[ci: ci + 300]) + "]")
+    body.append(f"/-- launch dimension expressions (source text, `dim:` prefixed, interned) of `{nm}`; 0 for host writes/copies -/")
+    body.append(f"def {nm}_dims : List Nat := " + " ++ ".join(dchunks))
   ordered = [k for k, _ in sorted(names.items(), key=lambda kv: kv[1])]
   nchunks = []
   for ci in range(0, len(ordered), 150):
